@@ -96,6 +96,72 @@ def decl_programs(count, seed):
         yield {"family": "decls", "index": idx, "source": src}
 
 
+# ------------------------------- (i') inner-scope names against module names
+def clash_programs(count, seed):
+    '''Modules whose routine has the same symbol name in two or three sibling
+    inner scopes (the widx1 loop variable of a WHERE inside each of several DO
+    loops; a 'tmp' added to each loop body through the API) while the module
+    itself declares - and the routine references - variables called exactly
+    like the first candidates for a renamed symbol (<name>_1, <name>_2).'''
+    for idx in range(count):
+        rnd = random.Random(seed * 8191 + idx * 131 + 3)
+        nloops = rnd.choice([2, 2, 3])
+        where = rnd.random() < 0.65
+        api = (not where) or rnd.random() < 0.5
+        mods = []
+        if where:
+            mods += rnd.choice([["widx1_1"], ["widx1_1", "widx1_2"], ["widx1_2"]])
+        if api:
+            mods += rnd.choice([["tmp_1"], ["tmp_1", "tmp_2"], ["tmp_2"]])
+        arrays = ["a", "b", "c"][:nloops]
+        src = [f"module c{idx}_mod", "  implicit none"]
+        for k, nm in enumerate(mods):
+            src.append(f"  integer :: {nm} = {k + 7}" if nm.startswith("widx")
+                       else f"  real :: {nm} = {k + 1}.5")
+        src += ["contains", f"  subroutine s({', '.join(arrays)}, n, total, x)",
+                "    integer, intent(in) :: n"]
+        src += [f"    real, dimension(10,n), intent(inout) :: {v}" for v in arrays]
+        src += ["    integer, intent(out) :: total", "    real, intent(out) :: x",
+                "    integer :: j"]
+        for v in arrays:
+            src.append("    do j = 1, n, 1")
+            if where:
+                src += [f"      where ({v}(:,j) > 0.0)", f"        {v}(:,j) = 0.0",
+                        "      end where"]
+            else:
+                src.append(f"      {v}(1,j) = 0.0")
+            src.append("    enddo")
+        ints = [m for m in mods if m.startswith("widx")]
+        reals = [m for m in mods if m.startswith("tmp")]
+        src.append("    total = " + (" + ".join(ints) if ints else "0"))
+        src.append("    x = " + (" + ".join(reals) if reals else "0.0"))
+        src += ["  end subroutine s", f"end module c{idx}_mod"]
+        yield {"family": "modclash", "index": idx, "source": "\n".join(src) + "\n",
+               "api_step": api, "module_names": mods}
+
+
+def sibling_symbols(psyir, name="tmp"):
+    '''API step: every top-level loop body of every routine gets its own symbol
+    of the given name (not visible from outside the body) and uses it.'''
+    from psyclone.psyir.nodes import Loop, Assignment, Reference, Literal, Routine
+    from psyclone.psyir.symbols import DataSymbol, REAL_TYPE
+    n = 0
+    for routine in psyir.walk(Routine):
+        for lp in [c for c in routine.children if isinstance(c, Loop)]:
+            table = lp.loop_body.symbol_table
+            try:
+                table.lookup(name)
+                continue                    # visible from an outer scope: leave
+            except KeyError:
+                pass
+            sym = DataSymbol(name, REAL_TYPE)
+            table.add(sym)
+            lp.loop_body.addchild(Assignment.create(Reference(sym),
+                                                    Literal("1.5", REAL_TYPE)), 0)
+            n += 1
+    return n
+
+
 # ------------------------------------------------------------- (ii) histories
 def _omp_step(kind):
     '''final step of a history: a directive transformation on the first loop
